@@ -625,3 +625,30 @@ def replay_settled_at_end(case):
     ok = done and bool(res) == exp
     return ok, (f"grouped simulator, earliest queued step {nxt!r}, until={until}, progress advanced to min(step, end): next_step_settled "
                 f"{'returned ' + str(res) if done else 'is still waiting'} (expected {exp})")
+
+
+def replay_schedule_step_tiered(case):
+    """schedule_step on a simulator inside a group (tiered times of depth 2): set semantics, heap order, and the simulator is
+    woken IFF the new step is earlier than every queued one IN THE TIERED ORDER (t:0 before t:1)"""
+    import heapq
+    import mosaik
+    from mosaik.simmanager import SimRunner
+    from mosaik.tiered_time import TieredTime
+    w = mosaik.World({}, skip_greetings=True)
+    try:
+        sim = SimRunner("S-0", _StubProxy("event-based"), depth=2)
+        sim.next_steps = [TieredTime(*q) for q in case["queued"]]
+        heapq.heapify(sim.next_steps)
+        x = TieredTime(*case["x"])
+        before = sorted(sim.next_steps)
+        was_in = x in sim.next_steps
+        sim.newer_step.clear()
+        sim.schedule_step(x)
+        after = sorted(sim.next_steps)
+        exp = sorted(before + ([] if was_in else [x]))
+        wake_exp = (not was_in) and (not before or x < before[0])
+        ok = after == exp and sim.newer_step.is_set() == wake_exp and sim.next_steps[0] == exp[0]
+        return ok, (f"grouped simulator with queued steps {before!r}: schedule_step({x!r}) -> {after!r} (expected {exp!r}), head {sim.next_steps[0]!r}, "
+                    f"woken={sim.newer_step.is_set()} (expected {wake_exp})")
+    finally:
+        w.loop.close()
